@@ -134,7 +134,7 @@ _TRANSLATED = {
     "C08": "the TBC encrypt / decrypt loop bodies", "C09": "Rc4::pseudo_random_generation and Rc4::apply_keystream", "C10": "the Wrath header encoder and decoder (encrypt_server_header, attempt_decrypt_server_header, decrypt_large_server_header, from_small_array, from_large_array)",
     "C11": "the Vanilla / TBC loop bodies, their eight typed header helpers and two header parsers, and the Wrath encrypt_server_header", "C13": "NormalizedString::new and the four other constructors", "C14": "SKey::as_equal_slice",
     "C15": "the positions of the random draws in into_server, verify_reconnection_attempt, calculate_reconnect_values",
-    "C16": "pin_to_bytes and remap_pin_grid", "C18": "get_number_at_coordinates, get_matrix_coordinates and the RC4 output step",
+    "C16": "pin_to_bytes and remap_pin_grid", "C18": "get_number_at_coordinates, get_matrix_coordinates, generate_coordinates and the RC4 output step",
 }
 _SRC_THEOREMS = {"C02", "C03", "C04", "C05", "C06", "C07", "C08", "C09", "C10", "C11", "C13", "C14", "C16", "C18"}
 for _k, _c in CHECKS.items():
